@@ -21,28 +21,28 @@ DICE = ("static class Dice {\n  public static function roll() -> int {\n    qubi
 # programs whose classical behaviour depends on ONE coin flip per run (exactly one measurement per run): anything pinned by an
 # earlier shot - in the syntax tree, in a process-wide cache, in a static - shows as soon as the shots' coins differ
 RUN_DEPENDENT = {
-    "static from a measurement": DICE + "static class Lab {\n  public static int face = Dice.roll();\n}\nfunction main() -> void {\n  echo(\"face=\" + Lab.face);\n}\n",
+    "static from a measurement": DICE + "static class Lab {\n  public static int face = Dice.roll();\n}\nfunction main() -> void {\n  echo(\"coin=\" + Lab.face);\n  echo(\"face=\" + Lab.face);\n}\n",
     "final static derived from a static": DICE + "static class Lab {\n  public static int face = Dice.roll();\n}\nstatic class Board {\n"
         "  public static final int width = Lab.face + 1;\n  public static final string label = \"w\" + width;\n  public static final int twice = width * 2;\n}\n"
-        "function main() -> void {\n  echo(\"board \" + Board.width + \" \" + Board.label + \" \" + Board.twice + \" face \" + Lab.face);\n}\n",
+        "function main() -> void {\n  echo(\"coin=\" + Lab.face);\n  echo(\"board \" + Board.width + \" \" + Board.label + \" \" + Board.twice + \" face \" + Lab.face);\n}\n",
     "field array sized by a static": DICE + "static class Layout {\n  public static int extra = Dice.roll();\n}\nclass Register {\n  public int[Layout.extra + 1] cells;\n"
         "  public constructor() -> Register = default;\n  public function show() -> void {\n    echo(cells);\n  }\n}\n"
-        "function main() -> void {\n  echo(\"extra=\" + Layout.extra);\n  Register r = new Register();\n  r.show();\n}\n",
-    "local array sized by a final": DICE + "function main() -> void {\n  int c = Dice.roll();\n  echo(c);\n  final int n = 2;\n  int[n] a;\n  a[c] = 7;\n  echo(a);\n}\n",
+        "function main() -> void {\n  echo(\"coin=\" + Layout.extra);\n  echo(\"extra=\" + Layout.extra);\n  Register r = new Register();\n  r.show();\n}\n",
+    "local array sized by a final": DICE + "function main() -> void {\n  int c = Dice.roll();\n  echo(\"coin=\" + c);\n  echo(c);\n  final int n = 2;\n  int[n] a;\n  a[c] = 7;\n  echo(a);\n}\n",
     "specialisation order": DICE + "class Box<T> {\n  public static int made = 0;\n  public T v;\n  public constructor(T x) -> Box<T> {\n    this.v = x;\n    made = made + 1;\n  }\n"
-        "  public function count() -> int {\n    return made;\n  }\n}\nfunction main() -> void {\n  int c = Dice.roll();\n  if (c == 1) {\n    Box<int> a = new Box<int>(1);\n"
+        "  public function count() -> int {\n    return made;\n  }\n}\nfunction main() -> void {\n  int c = Dice.roll();\n  echo(\"coin=\" + c);\n  if (c == 1) {\n    Box<int> a = new Box<int>(1);\n"
         "    Box<int> a2 = new Box<>(2);\n    echo(a2.count());\n  } else {\n    Box<string> b = new Box<string>(\"s\");\n    echo(b.count());\n  }\n"
         "  Box<string> z = new Box<string>(\"t\");\n  echo(z.count());\n  Box<int> y = new Box<int>(3);\n  echo(y.count());\n}\n",
     "static counter and objects": DICE + "class Node {\n  public static int live = 0;\n  public int id;\n  public Node next;\n  public constructor(int i) -> Node {\n    this.id = i;\n"
         "    live = live + 1;\n  }\n  public destructor() -> void {\n    live = live - 1;\n    echo(\"~Node \" + id + \" live \" + live);\n  }\n}\n"
-        "function main() -> void {\n  int c = Dice.roll();\n  Node a = new Node(c);\n  for (int i = 0; i < c + 1; i = i + 1) {\n    Node t = new Node(10 + i);\n"
+        "function main() -> void {\n  int c = Dice.roll();\n  echo(\"coin=\" + c);\n  Node a = new Node(c);\n  for (int i = 0; i < c + 1; i = i + 1) {\n    Node t = new Node(10 + i);\n"
         "    t.next = a;\n  }\n  echo(\"live \" + Node.live);\n}\n",
     "default constructor binding and overloads": DICE + "class P {\n  public int x;\n  public long y;\n  public constructor(int x, long y) -> P = default;\n"
         "  public function f(int a) -> string {\n    return \"f(int)\";\n  }\n  public function f(long a) -> string {\n    return \"f(long)\";\n  }\n}\n"
-        "function main() -> void {\n  int c = Dice.roll();\n  P p = new P(c, 5L);\n  echo(p.x + p.y);\n  if (c == 1) {\n    echo(p.f(1));\n  } else {\n    echo(p.f(2L));\n  }\n}\n",
-    "tracked local": DICE + "function main() -> void {\n  int c = Dice.roll();\n  @tracked qubit t;\n  if (c == 1) {\n    x(t);\n  }\n  measure t;\n  echo(c);\n}\n",
+        "function main() -> void {\n  int c = Dice.roll();\n  echo(\"coin=\" + c);\n  P p = new P(c, 5L);\n  echo(p.x + p.y);\n  if (c == 1) {\n    echo(p.f(1));\n  } else {\n    echo(p.f(2L));\n  }\n}\n",
+    "tracked local": DICE + "function main() -> void {\n  int c = Dice.roll();\n  echo(\"coin=\" + c);\n  @tracked qubit t;\n  if (c == 1) {\n    x(t);\n  }\n  measure t;\n  echo(c);\n}\n",
     "string built from a static chain": DICE + "static class A1 {\n  public static int a = Dice.roll();\n  public static string s = \"a\" + a;\n}\nstatic class B1 {\n"
-        "  public static final string t = A1.s + \"/\" + A1.a;\n}\nfunction main() -> void {\n  echo(B1.t);\n  echo(A1.s);\n}\n",
+        "  public static final string t = A1.s + \"/\" + A1.a;\n}\nfunction main() -> void {\n  echo(\"coin=\" + A1.a);\n  echo(B1.t);\n  echo(A1.s);\n}\n",
 }
 
 
@@ -53,18 +53,28 @@ def run_dependent(out, tier):
         [[0.25 if (m >> k) & 1 == 0 else 0.75 for k in range(5)] for m in range(1, 31)]
     jobs = []
     meta = {}
+    K = 8      # draws offered per run (more than any template consumes: how many a run takes does not matter)
     for name, src in RUN_DEPENDENT.items():
+        for d in (0.25, 0.75):
+            jid = len(jobs)
+            meta[jid] = (name, None, "fresh", d)
+            jobs.append({"id": jid, "src": src, "draws": [d] * K, "gc": "none"})
         for pi, pat in enumerate(patterns):
             jid = len(jobs)
             meta[jid] = (name, pi, "multi", None)
-            per = src.count("measure ")
-            jobs.append({"id": jid, "src": src, "draws": [d for d in pat for _ in range(per)], "shots": len(pat), "gc": "none", "reanalyse": True})
-            for k, d in enumerate(pat):
-                jid = len(jobs)
-                meta[jid] = (name, pi, "fresh", k)
-                jobs.append({"id": jid, "src": src, "draws": [d] * per, "gc": "none"})
+            jobs.append({"id": jid, "src": src, "draws_by_shot": [[d] * K for d in pat], "shots": len(pat), "gc": "none", "reanalyse": True})
     res = runner.run_jobs(jobs)
-    fresh = {(meta[j][0], meta[j][1], meta[j][3]): res[j] for j in meta if meta[j][2] == "fresh"}
+    fresh = collections.defaultdict(dict)      # template -> observed coin line -> (echo, tracked) of a fresh run with that coin
+    for j, (name, _, kind, d) in meta.items():
+        if kind != "fresh":
+            continue
+        f = res[j]
+        if f["status"] != "ok" or f["shots"][0]["status"] != "ok" or not f["shots"][0]["echo"] or not f["shots"][0]["echo"][0].startswith("coin="):
+            raise vlib.Infra("fresh run of '%s' failed: %s" % (name, str(f)[:300]))
+        fresh[name][f["shots"][0]["echo"][0]] = (f["shots"][0]["echo"], f["shots"][0].get("tracked"))
+    for name in RUN_DEPENDENT:
+        if len(fresh[name]) != 2 or len({tuple(v[0][1:]) for v in fresh[name].values()}) != 2:
+            raise vlib.Infra("run-dependent program '%s' does not distinguish the two coins: %s" % (name, fresh[name]))
     for j, (name, pi, kind, _) in meta.items():
         if kind != "multi":
             continue
@@ -75,22 +85,22 @@ def run_dependent(out, tier):
             out.violation("run-dependent program '%s': multi-shot execution ended with %s %s" % (name, r["status"], r.get("what", "")),
                           {"what": "multi-shot run failed", "program": jobs[j]["src"], "draws": pat, "result": r}, "rd%d" % j)
             continue
-        outs = set()
+        coins = set()
         for k in range(len(pat)):
             n += 1
-            f = fresh[(name, pi, k)]
-            if f["status"] != "ok":
-                raise vlib.Infra("fresh run of '%s' failed: %s" % (name, str(f)[:300]))
-            a, b = r["shots"][k], f["shots"][0]
-            outs.add(tuple(b["echo"]))
-            if (a["status"], a["echo"], a.get("tracked")) != (b["status"], b["echo"], b.get("tracked")):
+            a = r["shots"][k]
+            coin = a["echo"][0] if a["status"] == "ok" and a["echo"] else None
+            coins.add(coin)
+            want = fresh[name].get(coin)
+            if want is None or (a["echo"], a.get("tracked")) != want:
                 bad += 1
-                msg = ("run-dependent program '%s': shot %d of %d prints %s %s, a fresh run with the same coin prints %s %s"
-                       % (name, k + 1, len(pat), a["echo"], a.get("tracked"), b["echo"], b.get("tracked")))
-                out.violation(msg, {"what": msg, "program": jobs[j]["src"], "draws": pat, "shot": k + 1, "multi": a, "fresh": b}, "rd%d" % j)
+                msg = ("run-dependent program '%s': shot %d of %d prints %s %s; a fresh run whose coin shows %s prints %s"
+                       % (name, k + 1, len(pat), a.get("echo"), a.get("tracked"), coin, want))
+                out.violation(msg, {"what": msg, "program": jobs[j]["src"], "draws": pat, "shot": k + 1, "multi": a, "fresh_runs": {c: list(v) for c, v in fresh[name].items()}}, "rd%d" % j)
                 break
-        if len(outs) < 2:
-            raise vlib.Infra("run-dependent program '%s' prints the same thing for both coins" % name)
+        else:
+            if len(coins) < 2:
+                raise vlib.Infra("run-dependent program '%s': all shots of one multi-shot run saw the same coin" % name)
     return n, bad
 
 
